@@ -133,9 +133,21 @@ func runC16(c *Ctx) {
 		if c.Tier == "quick" {
 			step = 1 + len(enc)/40
 		}
+		offs := []int{}
 		for off := 0; off < len(enc); off += step {
+			offs = append(offs, off)
+		}
+		// always: the last byte of the ephemeral key with exactly its top bit flipped (X25519
+		// ignores that bit, defect D23), and the boundaries of the four parts
+		offs = append(offs, -31, 0, 31, 32, 43, 44, len(enc)-17, len(enc)-16, len(enc)-1)
+		for _, off := range offs {
 			m := cp(enc)
-			m[off] ^= byte(1 + r.Intn(255))
+			if off == -31 {
+				off = 31
+				m[off] ^= 0x80
+			} else {
+				m[off] ^= byte(1 + r.Intn(255))
+			}
 			e3, n3 := encrypted_leaseset.NewEncryptedLeaseSet(7, cp(k.pub), 1, 1, 0, nil, m, stdPriv(k))
 			if n3 != nil {
 				continue
